@@ -61,6 +61,20 @@ CHECKS = {
         "structure relationally by C11, and the sum-over-all-columns = 1 obligation is evaluated on the real code in float.",
         technique="TLA+ exact-rational sum-product (TLC: pruning = brute force) + per-column conformance of real likelihood functions",
     ),
+    "C11": dict(
+        category="model_checking",
+        text="Invariance.tla proves exactly, on the Felsenstein model over the TN93 family, that re-rooting at any inner node "
+        "(time-reversible models) and splitting an edge into two composing edges (time-homogeneous models) leave every site "
+        "likelihood unchanged; column/sequence/child order and column repetition are invariances by construction of the model. "
+        "The emitted root moves and edge splits are applied to the real functions of the exact configurations (lnL must equal the "
+        "exact value before and after) and the full transformation list is applied relationally to real problems of every model "
+        "class (nucleotide incl. non-reversible GN/ssGN, codon MG94HKY/GY94/CNFGTR, protein JTT92) with seeded alignments and parameters.",
+        design_ref="DESIGN.md section 2 / C11",
+        note="Trusted: TLC, cogent3's own tree re-rooting (rooted_at / rooted_with_tip, decided by C09) to produce the transformed "
+        "problems. For models without an exact oracle the check is relational in floating point (rtol 1e-9): the spec dictates which "
+        "relation must hold and under which model-class guard. 5-taxon seeded problems.",
+        technique="TLA+ exact invariance theorems (TLC) + relational conformance on real likelihood functions",
+    ),
 }
 
 PENDING = {}
